@@ -30,8 +30,7 @@ theorem spec_layout_inverse (f : Fields) (h : f.InWidth) :
   refine ⟨?_, encodeFields_lt f h⟩
   rw [decodeByLayout_eq, e0, e1, e2, e3]
 
-/-- The encoder is defined exactly on BSIC 0..63 and the SCH frames of the hyperframe; its fields are in the standard's
-ranges (T2 ≤ 25, T3' ≤ 4) and T3 = 10·T3' + 1. -/
+/-- The encoder is defined exactly on BSIC 0..63 and the SCH frames of the hyperframe. -/
 theorem encode_defined (bsic fn : Nat) :
     (bsic < 64 ∧ fn < 2715648 ∧ isSchFrame fn = true) ↔ ∃ w, encodeSb bsic fn = some w := by
   simp only [encodeSb, rfn?, hyperframe]
@@ -41,6 +40,19 @@ theorem encode_defined (bsic fn : Nat) :
     by_cases c : bsic < 64 ∧ fn < 26 * 51 * 2048 ∧ isSchFrame fn = true
     · exact c
     · simp only [c, if_false, Option.map_none] at hw; exact absurd hw (by simp)
+
+/-- The fields it encodes are in the standard's ranges (T1 ≤ 2047, T2 ≤ 25, T3' ≤ 4) and T3 = 10·T3' + 1 on SCH frames. -/
+theorem encode_fields_valid (bsic fn : Nat) (f : Fields) (h : rfn? bsic fn = some f) :
+    f.Valid ∧ f.bsic = bsic ∧ f.t1 = fn / 1326 ∧ f.t2 = fn % 26 ∧ 10 * f.t3p + 1 = fn % 51 := by
+  by_cases c : bsic < 64 ∧ fn < hyperframe ∧ isSchFrame fn = true
+  · obtain ⟨hb, hf, hs⟩ := c
+    have hs' := (isSchFrame_iff fn).1 hs
+    simp only [rfn?, hb, hf, hs, and_self, if_true, Option.some.injEq] at h
+    simp only [hyperframe] at hf
+    subst h
+    dsimp only [Fields.Valid]
+    refine ⟨⟨hb, ?_, ?_, ?_⟩, rfl, ?_, rfl, ?_⟩ <;> omega
+  · simp only [rfn?, c, if_false] at h; exact absurd h (by simp)
 
 /-! ### (a) the two decoders agree on every input -/
 
@@ -282,6 +294,11 @@ example : encodeSb 63 1 = some 0x400fc ∧ fwDecodeSb 0x400fc = ⟨63, cFn2GsmTi
     isSchFrame 1234568 = true ∧ encodeSb 37 1234568 = some 0x1a8d195 ∧
     fwDecodeSb (0x1a8d195 + 2 ^ 25 * 127) = ⟨37, ⟨1234568, 931, 10, 11, 7⟩⟩ ∧
     trxDecodeSb ⟨9, 9, 9, 9, 5⟩ 0x95 0xd1 0xa8 0xff = .ok ⟨37, ⟨1234568, 931, 10, 11, 5⟩⟩ := by decide +kernel
+
+/-- hypotheses of `encode_decode` / `decode_consistent_iff` (valid fields) and of `t3p_invalid_not_sch` (T3' = 7, T2 = 20)
+are satisfiable -/
+example : (0x1a8d195 < 2 ^ 25 ∧ (fwDecodeSb 0x1a8d195).time.t2 < 26 ∧ (fwDecodeSb 0x1a8d195).time.t3 < 51) ∧
+    ((fwDecodeSb 0x1d3ff03).time.t2 < 26 ∧ 51 ≤ (fwDecodeSb 0x1d3ff03).time.t3) := by decide +kernel
 
 /-- without the `(uint32_t)` cast the model's `int` shift of `sb_info[3] ≥ 128` has no value -/
 example : shlInt 0x80 24 = .error (.shlInt 0x80 24) := rfl
